@@ -692,14 +692,17 @@ func ruleGRDbudget(w *World, r *Report) {
 		return
 	}
 	fn := w.SSAFunc(fi.Obj)
+	outer := fn // the function that reports the total; fn becomes the one that holds the selection loop
 	derivesFromMaxTokens := func(v ssa.Value) bool {
-		for _, leaf := range phiLeaves(v) {
-			if isFieldLoad(leaf, "MaxTokens") {
+		for _, leaf := range phiLeaves(stripConv(v)) {
+			if isFieldLoad(stripConv(leaf), "MaxTokens") {
 				return true
 			}
 		}
 		return false
 	}
+	// the same quantity, whether it is looked at as an int or as a float
+	same := func(a, b ssa.Value) bool { return stripConv(a) == stripConv(b) }
 	// the budget test in any orientation: (total+t) >/>= B, B </<= (total+t) leave on the false edge;
 	// (total+t) </<= B, B >/>= (total+t) on the true edge
 	guardParts := func(in ssa.Instruction) (sum *ssa.BinOp, fitsOnTrue bool, ok bool) {
@@ -728,6 +731,14 @@ func ruleGRDbudget(w *World, r *Report) {
 		return func(in ssa.Instruction) bool { _, f, ok := guardParts(in); return ok && f == fits }
 	}
 	guards := findInstrs(fn, isGuard)
+	if len(guards) == 0 { // the selection loop as a method of its own, called by assembleContext only
+		for _, h := range w.extractedHelpers(fn) {
+			if hg := findInstrs(h, isGuard); len(hg) > 0 {
+				fn, guards = h, hg
+				break
+			}
+		}
+	}
 	if len(guards) == 0 {
 		r.Bad("GRD-budget", "assembleContext:budget-test", w.Pos(fi.Decl.Pos()), "assembleContext contains no comparison of total+chunkTokens with MaxTokens: the context is assembled without a budget")
 		return
@@ -765,7 +776,8 @@ func ruleGRDbudget(w *World, r *Report) {
 			feedsTotal := func(v *ssa.BinOp) bool {
 				for _, ref := range *v.Referrers() {
 					p, ok := ref.(*ssa.Phi)
-					if !ok || !(p == sum.X || p == sum.Y || phiReaches(p, sum.X) || phiReaches(p, sum.Y) || phiReaches(sum.X, p) || phiReaches(sum.Y, p)) {
+					sx, sy := stripConv(sum.X), stripConv(sum.Y)
+					if !ok || !(p == sx || p == sy || phiReaches(p, sx) || phiReaches(p, sy) || phiReaches(sx, p) || phiReaches(sy, p)) {
 						continue
 					}
 					for i, e := range p.Edges {
@@ -778,7 +790,7 @@ func ruleGRDbudget(w *World, r *Report) {
 			}
 			for _, b2 := range fn.Blocks {
 				for _, in2 := range b2.Instrs {
-					if bo, ok := in2.(*ssa.BinOp); ok && bo.Op == token.ADD && (bo.X == sum.X && bo.Y == sum.Y || bo.X == sum.Y && bo.Y == sum.X) && feedsTotal(bo) {
+					if bo, ok := in2.(*ssa.BinOp); ok && bo.Op == token.ADD && (same(bo.X, sum.X) && same(bo.Y, sum.Y) || same(bo.X, sum.Y) && same(bo.Y, sum.X)) && feedsTotal(bo) {
 						counted = true
 					}
 				}
@@ -791,7 +803,12 @@ func ruleGRDbudget(w *World, r *Report) {
 	}
 	// reported total
 	okTot := false
-	for _, b := range fn.Blocks {
+	isTotal := func(v ssa.Value) bool {
+		sum, _, _ := guardParts(guards[0])
+		sx, sy := stripConv(sum.X), stripConv(sum.Y)
+		return v == sx || v == sy || phiReaches(v, sx) || phiReaches(v, sy) || phiReaches(sx, v) || phiReaches(sy, v)
+	}
+	for _, b := range outer.Blocks {
 		for _, in := range b.Instrs {
 			st, ok := in.(*ssa.Store)
 			if !ok {
@@ -802,12 +819,99 @@ func ruleGRDbudget(w *World, r *Report) {
 				continue
 			}
 			if _, f := structFieldName(fa.X.Type(), fa.Field); f == "TotalTokens" {
-				sum, _, _ := guardParts(guards[0])
-				if st.Val == sum.X || st.Val == sum.Y || phiReaches(st.Val, sum.X) || phiReaches(st.Val, sum.Y) || phiReaches(sum.X, st.Val) || phiReaches(sum.Y, st.Val) {
-					okTot = true
+				if outer == fn {
+					if isTotal(st.Val) {
+						okTot = true
+					}
+					continue
+				}
+				// the total comes back from the helper: result #i of its call, and the helper returns its running total there
+				if ex, ok := st.Val.(*ssa.Extract); ok {
+					if c, ok := ex.Tuple.(*ssa.Call); ok && c.Call.StaticCallee() == fn {
+						all := true
+						n := 0
+						for _, hb := range fn.Blocks {
+							if rt, ok := hb.Instrs[len(hb.Instrs)-1].(*ssa.Return); ok && ex.Index < len(rt.Results) {
+								n++
+								if !isTotal(retVal(rt, ex.Index)) {
+									all = false
+								}
+							}
+						}
+						okTot = all && n > 0
+					}
 				}
 			}
 		}
+	}
+	// the estimate itself: a quotient of the chunk length and the configured rate. It must reach the comparison as a
+	// float (converted to int first, a tiny rate overflows the conversion and the estimate goes negative), and it must not
+	// be truncated towards zero on the way (a chunk shorter than one token would cost nothing).
+	for gi, g := range guards {
+		sum, _, _ := guardParts(g)
+		var quo *ssa.BinOp
+		viaInt, roundedUp := false, false
+		var walk func(v ssa.Value, depth int, sawIntConv bool)
+		seenW := map[ssa.Value]bool{}
+		walk = func(v ssa.Value, depth int, sawIntConv bool) {
+			if depth > 12 || seenW[v] {
+				return
+			}
+			seenW[v] = true
+			switch x := v.(type) {
+			case *ssa.Convert:
+				toInt := isIntType(x.Type())
+				fromFloat := false
+				if b, ok := x.X.Type().Underlying().(*types.Basic); ok && b.Info()&types.IsFloat != 0 {
+					fromFloat = true
+				}
+				walk(x.X, depth+1, sawIntConv || (toInt && fromFloat))
+			case *ssa.ChangeType:
+				walk(x.X, depth+1, sawIntConv)
+			case *ssa.Phi:
+				if loopCarried(x) {
+					return // the running total of the earlier iterations, not this chunk's estimate
+				}
+				for _, e := range x.Edges {
+					walk(e, depth+1, sawIntConv)
+				}
+			case *ssa.Call:
+				if o := calleeObj(&x.Call); o != nil && o.Pkg() != nil && o.Pkg().Path() == "math" && (o.Name() == "Ceil" || o.Name() == "Round") {
+					if o.Name() == "Ceil" {
+						roundedUp = true
+					}
+					walk(x.Call.Args[0], depth+1, sawIntConv)
+				} else if bi, ok := x.Call.Value.(*ssa.Builtin); ok && bi.Name() == "max" {
+					for _, a := range x.Call.Args {
+						if k, ok := constInt(stripConv(a)); ok && k >= 1 {
+							roundedUp = true
+						}
+						walk(a, depth+1, sawIntConv)
+					}
+				}
+			case *ssa.BinOp:
+				switch x.Op {
+				case token.QUO:
+					quo = x
+					if sawIntConv {
+						viaInt = true
+					}
+				case token.ADD:
+					if k, ok := constInt(stripConv(x.Y)); ok && k >= 1 {
+						roundedUp = true
+					}
+					walk(x.X, depth+1, sawIntConv)
+					walk(x.Y, depth+1, sawIntConv)
+				}
+			}
+		}
+		walk(sum.X, 0, false)
+		walk(sum.Y, 0, false)
+		if quo == nil {
+			continue // the estimate is not a quotient computed here: nothing to say about its rounding
+		}
+		r.Cond(!viaInt, "GRD-budget", fmt.Sprintf("assembleContext:budget-test#%d:estimate-compared-as-a-float", gi+1), w.Pos(g.Pos()), "the quotient reaches the comparison without a float→int conversion", "the token estimate is converted to int before it is compared with the budget: chars_per_token is a request field (only tested > 0), a tiny value makes the quotient exceed the int range, the conversion yields a negative estimate, the budget test never fires and every candidate is assembled", w.witness([]ssa.Instruction{quo})...)
+		r.Cond(roundedUp, "GRD-budget", fmt.Sprintf("assembleContext:budget-test#%d:estimate-rounded-up", gi+1), w.Pos(g.Pos()), "the per-chunk estimate is rounded up (or at least 1)", "the per-chunk token estimate is truncated towards zero: a chunk shorter than chars_per_token costs nothing, any number of such chunks fits any budget and the assembled context exceeds it by the retriever's own rate", w.witness([]ssa.Instruction{quo})...)
 	}
 	r.Cond(okTot, "GRD-budget", "assembleContext:reports-total", w.Pos(fi.Decl.Pos()), "TotalTokens is the running total the budget test uses", "the TotalTokens reported by assembleContext is not the running total its budget test uses")
 }
@@ -1335,4 +1439,42 @@ func ruleGRDverbatimFilter(w *World, r *Report) {
 func isStringType(t types.Type) bool {
 	b, ok := t.Underlying().(*types.Basic)
 	return ok && b.Info()&types.IsString != 0
+}
+
+// loopCarried: a phi one of whose incoming values is computed from the phi itself (an accumulator or counter).
+func loopCarried(p *ssa.Phi) bool {
+	seen := map[ssa.Value]bool{}
+	var uses func(v ssa.Value, depth int) bool
+	uses = func(v ssa.Value, depth int) bool {
+		if v == ssa.Value(p) {
+			return true
+		}
+		if depth > 8 || seen[v] {
+			return false
+		}
+		seen[v] = true
+		switch x := v.(type) {
+		case *ssa.BinOp:
+			return uses(x.X, depth+1) || uses(x.Y, depth+1)
+		case *ssa.Convert:
+			return uses(x.X, depth+1)
+		case *ssa.ChangeType:
+			return uses(x.X, depth+1)
+		case *ssa.UnOp:
+			return uses(x.X, depth+1)
+		case *ssa.Phi:
+			for _, e := range x.Edges {
+				if uses(e, depth+1) {
+					return true
+				}
+			}
+		}
+		return false
+	}
+	for _, e := range p.Edges {
+		if e != ssa.Value(p) && uses(e, 0) {
+			return true
+		}
+	}
+	return false
 }
